@@ -231,6 +231,10 @@ def run(f, fixture, rep, cfg, tier):
                       "%s wraps the sink in a BufWriter that is dropped without an explicit flush: the error of the final flush is swallowed and success is reported with bytes missing" % b.path, c.loc())
     rep.count("bufwriters_on_write_cone", nbuf)
 
+    # R7 adapters count what the inner call transferred (C07.R4: bytes_read / written advance by the inner count)
+    rep.rule("R7", "payload reader/writer account the bytes actually transferred (C07.R4)")
+    rep.include("c07", f, fixture, cfg, tier, "R7", "payload adapter accounting", only_rules={"R4"}, floor=3)
+
     # R5 reads
     proots = _roots(f, PARSE_ROOTS)
     rep.anchor(len(proots) >= 4, "R5", "parse roots")
